@@ -11,6 +11,8 @@ type FromSpec struct {
 	nameAddr *NameAddr
 	addrSpec *AddrSpec
 	params   []KeyValue
+	// text between '>' and the first ';' as received (optional blanks)
+	sep string
 }
 
 func ParseFromSpec(s string) (*FromSpec, error) {
@@ -36,6 +38,7 @@ func ParseFromSpec(s string) (*FromSpec, error) {
 		}
 		pos := strings.IndexByte(s[raquot_pos+1:], ';')
 		if pos != -1 {
+			r.sep = s[raquot_pos+1 : raquot_pos+1+pos]
 			params = s[raquot_pos+1+pos+1:]
 		}
 	} else {
@@ -84,7 +87,10 @@ func (fs *FromSpec) String() string {
 	} else if fs.addrSpec != nil {
 		fmt.Fprintf(buf, "%s", fs.addrSpec.String())
 	}
-	for _, param := range fs.params {
+	for i, param := range fs.params {
+		if i == 0 {
+			buf.WriteString(fs.sep)
+		}
 		fmt.Fprintf(buf, ";%s", param.String())
 	}
 	return buf.String()
